@@ -83,6 +83,23 @@ Or(a, b)     == <<"or", a, b>>
 Neq(f, o)    == Not(Un("eq", f, o))
 NotExists(f) == Not(Un("exists", f, NoCrit))
 
+(* The derived builders of query.Field, as they appear in observed criteria:  *)
+(* <<"sugar", name, f, o>>.  Desugar rewrites them into what they stand for *)
+(* (C16: Neq is Not(Eq), NotExists the negation of Exists, ...).            *)
+RECURSIVE Desugar(_)
+Desugar(c) ==
+    CASE c[1] = "sugar" ->
+           (CASE c[2] = "neq"       -> Neq(c[3], c[4])
+              [] c[2] = "notexists" -> Not(Un("exists", c[3], c[4]))
+              [] c[2] = "isnil"     -> Un("eq", c[3], Lit(Nil))
+              [] c[2] = "istrue"    -> Un("eq", c[3], Lit(<<"bool", 1>>))
+              [] c[2] = "isfalse"   -> Un("eq", c[3], Lit(<<"bool", 0>>))
+              [] c[2] = "isnilornotexists" ->
+                    Or(Un("eq", c[3], Lit(Nil)), Not(Un("exists", c[3], c[4]))))
+      [] c[1] \in {"and", "or"} -> <<c[1], Desugar(c[2]), Desugar(c[3])>>
+      [] c[1] = "not" -> <<"not", Desugar(c[2])>>
+      [] OTHER -> c
+
 RECURSIVE WFCrit(_)
 WFOperandVal(o) == \/ o[1] = "lit" /\ WFValue(o[2])
                    \/ o[1] \in {"ref", "dollar"}
